@@ -8,6 +8,7 @@ import DxModel.GraphCheck
 import Driver.Proto
 import Driver.Shuffle
 import Driver.Repartition
+import Driver.Pred
 open Dx Dx.Proto
 
 namespace Dx.Drv
@@ -31,6 +32,7 @@ def handlers : List (List String → Option String) :=
   [ handleCore
   , Dx.Drv.Shuffle.handle
   , Dx.Drv.Repartition.handle
+  , Dx.Drv.Pred.handle
   ]
 
 def handle (line : String) : String :=
